@@ -40,18 +40,8 @@ Definition binders (c : clause) : list (str * extractor) :=
      (cPB c, XPred); (cPA c, XPred); (cPIdA c, XPId); (cPAncB c, XPAnchor); (cPAncA c, XPAnchor);
      (cOB c, XObj); (cOA c, XObj); (cOTy c, XOType); (cOIdA c, XOId); (cOAncB c, XOAnchor); (cOAncA c, XOAnchor)].
 
-(* functional updates used by addSpecifiedData on its private copy of the clause *)
-Definition with_S (c : clause) (s : node) : clause :=
-  mkClause (c_opt c) (Some s) (cSB c) (cSA c) (cSTy c) (cSId c)
-           (cP c) (cPID c) (cPB c) (cPA c) (cPIdA c) (cPAncB c) (cPAncA c) (cPLo c) (cPUp c) (cPLoA c) (cPUpA c) (cPTemporal c)
-           (cO c) (cOB c) (cOA c) (cOID c) (cOTy c) (cOIdA c) (cOAncB c) (cOAncA c) (cOLo c) (cOUp c) (cOLoA c) (cOUpA c) (cOTemporal c).
-
-Definition with_P (c : clause) (p : pred) : clause :=
-  mkClause (c_opt c) (cS c) (cSB c) (cSA c) (cSTy c) (cSId c)
-           (Some p) (cPID c) (cPB c) (cPA c) (cPIdA c) (cPAncB c) (cPAncA c) (cPLo c) (cPUp c) (cPLoA c) (cPUpA c) (cPTemporal c)
-           (cO c) (cOB c) (cOA c) (cOID c) (cOTy c) (cOIdA c) (cOAncB c) (cOAncA c) (cOLo c) (cOUp c) (cOLoA c) (cOUpA c) (cOTemporal c).
-
-Definition with_O (c : clause) (o : obj) : clause :=
-  mkClause (c_opt c) (cS c) (cSB c) (cSA c) (cSTy c) (cSId c)
-           (cP c) (cPID c) (cPB c) (cPA c) (cPIdA c) (cPAncB c) (cPAncA c) (cPLo c) (cPUp c) (cPLoA c) (cPUpA c) (cPTemporal c)
-           (Some o) (cOB c) (cOA c) (cOID c) (cOTy c) (cOIdA c) (cOAncB c) (cOAncA c) (cOLo c) (cOUp c) (cOLoA c) (cOUpA c) (cOTemporal c).
+(* the private copy of the clause addSpecifiedData works on: only S, P and O are ever assigned *)
+Definition with_SPO (c : clause) (s : option node) (p : option pred) (o : option obj) : clause :=
+  mkClause (c_opt c) s (cSB c) (cSA c) (cSTy c) (cSId c)
+           p (cPID c) (cPB c) (cPA c) (cPIdA c) (cPAncB c) (cPAncA c) (cPLo c) (cPUp c) (cPLoA c) (cPUpA c) (cPTemporal c)
+           o (cOB c) (cOA c) (cOID c) (cOTy c) (cOIdA c) (cOAncB c) (cOAncA c) (cOLo c) (cOUp c) (cOLoA c) (cOUpA c) (cOTemporal c).
